@@ -66,6 +66,19 @@ def concretize(symbols, rnd, e2e=False):
     return "".join(out), offs
 
 
+FACETS = ["lessThanProperty", "lessThanOrEqualsToProperty", "equalsToProperty", "disjointWithProperty"]
+
+
+def fixed_concretize(symbols):
+    out, offs, pos = [], [], 0
+    for c in symbols:
+        t = {"L": "a", " ": " ", "T": "@type", "Q": '"', "#": "#", "B": "\\"}.get(c, c)
+        out.append(t)
+        offs.append((pos, pos + len(t)))
+        pos += len(t)
+    return "".join(out), offs
+
+
 def expected_ast(ast, text, offs):
     k = ast["k"]
     if k == "prop":
@@ -222,9 +235,30 @@ def run(tier):
             e2e = (n % (25 if quick else 50) == 0) and "*" not in c["s"] and "B" not in c["s"]
             text, offs = concretize(c["s"], rnd, e2e=e2e)
             cid = "%s/%d" % (sname, n)
-            rows.append({"id": cid, "s": text, "e2e": e2e})
+            row = {"id": cid, "s": text, "e2e": e2e}
+            if e2e and (n // (25 if quick else 50)) % 2 == 1:
+                # every second end-to-end case: the string is the argument of a property-comparison facet
+                row["arg"] = FACETS[(n // 50) % len(FACETS)]
+            rows.append(row)
             meta[cid] = (c, text, offs)
+    # history pass: the same strings with ONE fixed letter, all sentences first and the non-sentences after them in the
+    # same processes -- an answer must not depend on what was parsed before (e.g. through a cache keyed by a normal form)
+    hist_rows = []
+    hsrc = [(sname, c) for sname, (cases, _, _, _) in scopes for c in cases if c["agree"]]
+    hsrc.sort(key=lambda t: (not t[1]["ok"], len(t[1]["s"])))
+    if quick:
+        acc = [t for t in hsrc if t[1]["ok"]]
+        rej = [t for t in hsrc if not t[1]["ok"]]
+        rnd.shuffle(rej)
+        hsrc = acc + rej[:12000]
+    for n, (sname, c) in enumerate(hsrc):
+        text, offs = fixed_concretize(c["s"])
+        cid = "hist/%d" % n
+        hist_rows.append({"id": cid, "s": text, "e2e": False})
+        meta[cid] = (c, text, offs)
     obs = vlib.run_harness("paths", rows, "c16", timeout=3000)
+    obs += vlib.run_harness("paths", hist_rows, "c16_hist", shards=4, timeout=3000)
+    rows = rows + hist_rows
     naccept = 0
     e2e_n = 0
     for o in obs:
